@@ -56,7 +56,8 @@ func (f *MemFile) Chdir() error {
 		return &fs.PathError{Op: op, Path: f.name, Err: err}
 	}
 
-	_ = f.vfs.SetCurDir(f.name)
+	// the name used to open the directory may be relative to another current directory.
+	_ = f.vfs.SetCurDir(f.absPath)
 
 	return nil
 }
